@@ -224,6 +224,11 @@ pub fn urange(req: &Req) -> R<String> {
 		Ok(format!("ok:{}", out.join(",")))
 	}
 	match req.get("gen")? {
+		"xoshiro" if req.opt("state").is_some() => {
+			let st = req.opt_list_u64("state")?.ok_or(Bad)?;
+			let r: urandom::Random<Xoshiro256> = serde_json::from_str(&format!("{{\"state\":[{}]}}", join(&st, ","))).map_err(|_| Bad)?;
+			run(r, &pre, w, lo, hi, n)
+		}
 		"xoshiro" => run(Xoshiro256::from_seed(seed), &pre, w, lo, hi, n),
 		"splitmix" => run(SplitMix64::from_seed(seed), &pre, w, lo, hi, n),
 		"wyrand" => run(Wyrand::from_seed(seed), &pre, w, lo, hi, n),
